@@ -152,12 +152,16 @@ def register(props):
                       "C10_inline_cycle_refuted (D11) and C10_default_cycle_refuted (D50) are reachable through the loader; "
                       "C10_scope_foreign_ref_refuted (UnserializeScope, unlike UnserializeSchema, returns references into another "
                       "namespace unlinked: C10_usable carries foreign_refs s = false, C10_usable_plugin does not need it); "
-                      "C10_wf_schema_not_established (the loader checks id = key for the root object only).",
+                      "C10_wf_schema_not_established (the loader checks id = key for the root object only). (3) "
+                      "C10_usable_applied_namespaces: a scope returned by UnserializeScope with references into other namespaces "
+                      "is usable in the same sense in EVERY environment in which those namespaces are applied, are themselves "
+                      "wf_use, and every foreign reference resolves to an object and, where it is a one-of member, passes the member "
+                      "check of ApplyNamespace (ext_ok; C10_foreign_member_accepted shows the loader cannot check it).",
         "level_note": "Model = Schema/Describe.v (parse + link) and Schema/Ops.v (map-based objects; a schema read from the wire is "
                       "always map-based); tie = family c10mutants: the model's verdict rejected / usable / pending is compared with "
                       "the SDK on every mutant and every operation is run on whatever is returned. Partial: termination is proved "
-                      "only outside the classes D11 / D50 (open known findings of C04, fatal stack overflow in Go); a scope returned "
-                      "by UnserializeScope with references into another namespace is covered only by the recorded assumption "
-                      "(usable once that namespace is applied - no theorem about ApplyNamespace on a rebuilt scope).",
+                      "only outside the classes D11 / D50 (open known findings of C04, fatal stack overflow in Go); ApplyNamespace itself is "
+                      "not modelled as an operation on a rebuilt scope: C10_usable_applied_namespaces is stated over the resolution "
+                      "environment (e_ext) that Schema/Ops.v uses for applied namespaces.",
         "design_ref": "DESIGN.md §5 C10",
     }
